@@ -15,6 +15,10 @@ def sh(cmd, cwd=None, env=None):
 
 def main():
     only = sys.argv[1:]
+    seed = "1"
+    if len(only) >= 2 and only[0] == "--seed":
+        seed, only = only[1], only[2:]
+    out_md = "REVERIFY.md" if seed == "1" else "REVERIFY-seed%s.md" % seed
     rows = []
     for meta_path in sorted(glob.glob(os.path.join(ROOT, "seeded", "*", "meta.json"))):
         d = os.path.dirname(meta_path)
@@ -39,7 +43,7 @@ def main():
                 env = dict(os.environ)
                 env.update(VERIF_REPO=wt, VERIF_REPLAY_OUT=scratch + "/replay", VERIF_EVIDENCE_OUT=scratch + "/evidence", VERIF_WORK=scratch + "/work")
                 t0 = time.time()
-                p = sh([os.path.join(ROOT, "check"), prop, "--tier", "quick"], env=env)
+                p = sh([os.path.join(ROOT, "check"), prop, "--tier", "quick", "--seed", seed], env=env)
                 verdict = {0: "MISSED", 1: "detected", 2: "inconclusive"}.get(p.returncode, str(p.returncode))
                 rows.append((sid, prop, "%s (%.0f s)" % (verdict, time.time() - t0)))
                 print(sid, prop, verdict, flush=True)
@@ -49,12 +53,18 @@ def main():
             shutil.rmtree(wt, ignore_errors=True)
     sh(["git", "-C", "/repo", "worktree", "prune"])
     if not only:
-        with open(os.path.join(ROOT, "seeded", "REVERIFY.md"), "w") as f:
-            f.write("# Quick-tier checks re-run against every stored seeded change\n\n| seeded change | check | verdict |\n|---|---|---|\n")
+        with open(os.path.join(ROOT, "seeded", out_md), "w") as f:
+            f.write("# Quick-tier checks (seed %s) re-run against every stored seeded change\n\n" % seed + "| seeded change | check | verdict |\n|---|---|---|\n")
             for sid, prop, v in rows:
                 f.write("| %s | %s | %s |\n" % (sid, prop, v))
     bad = [r for r in rows if not r[2].startswith("detected")]
-    print("total", len(rows), "not detected:", bad)
+    seeds = sorted({r[0] for r in rows})
+    undetected = [s for s in seeds if not any(r[0] == s and r[2].startswith("detected") for r in rows)]
+    if not only:
+        with open(os.path.join(ROOT, "seeded", out_md), "a") as f:
+            f.write("\n%d seeded changes, %d check runs; changes detected by no check: %s; check runs that did not detect (the change is caught by another check in the table): %s\n"
+                    % (len(seeds), len(rows), undetected or "none", ["%s/%s" % (r[0], r[1]) for r in bad] or "none"))
+    print("total", len(rows), "runs not detecting:", bad, "seeds detected by no check:", undetected)
 
 
 if __name__ == "__main__":
